@@ -83,8 +83,21 @@ func runEncodeChain(t *simrt.Tape, keep bool) simrt.Outcome {
 		fmt.Println("INFRA:", err)
 		os.Exit(2)
 	}
-	r.log.Addf("chain %v n=%d", chain, n)
-	sample := map[string]any{"chain": chain, "records": n}
+	// the output paths may exist already, holding an older and longer result file
+	stale := t.Prob(1, 2)
+	if stale {
+		old := genCmdResults(r, n+1+t.Choose(5))
+		for i := 1; i <= l; i++ {
+			writeResults(filepath.Join(dir, fmt.Sprintf("chain-%d.bin", i)), chain[i], old)
+		}
+		r.stats["fault.output-file-exists"]++
+	} else {
+		for i := 1; i <= l; i++ {
+			os.Remove(filepath.Join(dir, fmt.Sprintf("chain-%d.bin", i)))
+		}
+	}
+	r.log.Addf("chain %v n=%d stale=%v", chain, n, stale)
+	sample := map[string]any{"chain": chain, "records": n, "output_files_existed": stale}
 	cur := src
 	for i := 1; i <= l && r.viol == nil; i++ {
 		next := filepath.Join(dir, fmt.Sprintf("chain-%d.bin", i))
